@@ -191,7 +191,7 @@ PROPS = {
     },
     "C12": {
         "obligation_files": ["Properties/C12.v"],
-        "model_files": ['Model/Caveat.v', 'Model/Msgpack.v', 'Model/Codec.v', 'Corr/Transport.v', 'Corr/RunM.v'],
+        "model_files": ['Model/Caveat.v', 'Model/Msgpack.v', 'Model/Codec.v', 'Model/TypedDec.v', 'Model/TypedDec2.v', 'Model/CavSize.v', 'Corr/Transport.v', 'Corr/RunM.v'],
         "rule": "stream malformed: structurally valid tokens damaged in 9 ways (byte mutation, nil in place of a field, oversized length prefixes array32/map32/bin32/str32/array16, nesting up to 2000 deep, unknown types with arbitrary bodies and mistyped bodies for registered types, truncation, random bytes, the recorded crashers F2-F5/F11, mistyped spliced values), "
                 "JSON documents (null bodies, null ifs, wrong shapes, mutated) and header strings; every input goes through Decode / DecodeCaveats / DecodeNonce / Parse / ParseBundle and then EVERY operation the library offers on the result (Validate, GetCaveats, scopes, Expiration, tickets, Verify, Add, Encode, String, Clone, JSON, bundle ops) under recover() with a TotalAlloc bound of 256*len + 64 MiB; "
                 "the model's Decoder.Skip is compared on the same hostile inputs; non-trivial = all inputs; scale: an array header that lies in front of 63-300 well-formed caveats (decode-only allocation bound); Count/Any with whole-list filters before printing, cloning and verifying every parsed bundle",
